@@ -131,6 +131,11 @@ type allocCase struct {
 }
 
 // runAllocCase executes one case: returns the observation [site..., any] and whether the state was warm
+// midData / midFields: a third message used between the previous and the current one (the destination then
+// holds a value of another size or address family while its capacity is still the larger one)
+var midData []byte
+var midFields []string
+
 func runAllocCase(op []int, prior, cur []string, priorData, curData, key []byte) (obs []int, capsUsed []int) {
 	switch op[0] {
 	case 1: // decode
@@ -138,6 +143,9 @@ func runAllocCase(op []int, prior, cur []string, priorData, curData, key []byte)
 		if len(priorData) > 0 {
 			_ = stun.Decode(priorData, m)
 			_ = stun.Decode(priorData, m)
+		}
+		if len(midData) > 0 {
+			_ = stun.Decode(midData, m)
 		}
 		cr, ca := cap(m.Raw), cap(m.Attributes)
 		var n int
@@ -153,12 +161,17 @@ func runAllocCase(op []int, prior, cur []string, priorData, curData, key []byte)
 			_ = stun.Decode(priorData, mp)
 		}
 		_ = stun.Decode(curData, mc)
+		mm := new(stun.Message)
+		hasMid := len(midData) > 0 && stun.Decode(midData, mm) == nil
 		switch op[0] {
 		case 2:
 			t := stun.AttrType(op[1])
 			var d stun.TextAttribute
 			if len(priorData) > 0 {
 				_ = d.GetFromAs(mp, t)
+			}
+			if hasMid {
+				_ = d.GetFromAs(mm, t)
 			}
 			c0 := cap(d)
 			n := mallocsStable(func() { _ = d.GetFromAs(mc, t) })
@@ -168,6 +181,9 @@ func runAllocCase(op []int, prior, cur []string, priorData, curData, key []byte)
 			if len(priorData) > 0 {
 				_ = a.GetFrom(mp)
 			}
+			if hasMid {
+				_ = a.GetFrom(mm)
+			}
 			c0 := cap(a.IP)
 			n := mallocs(func() { _ = a.GetFrom(mc) })
 			return []int{b2i(n > 0 || cap(a.IP) != c0), b2i(n > 0)}, []int{c0}
@@ -175,6 +191,9 @@ func runAllocCase(op []int, prior, cur []string, priorData, curData, key []byte)
 			var a stun.MappedAddress
 			if len(priorData) > 0 {
 				_ = a.GetFrom(mp)
+			}
+			if hasMid {
+				_ = a.GetFrom(mm)
 			}
 			c0 := cap(a.IP)
 			n := mallocs(func() { _ = a.GetFrom(mc) })
@@ -184,6 +203,9 @@ func runAllocCase(op []int, prior, cur []string, priorData, curData, key []byte)
 			if len(priorData) > 0 {
 				_ = e.GetFrom(mp)
 			}
+			if hasMid {
+				_ = e.GetFrom(mm)
+			}
 			c0 := cap(e.Reason)
 			n := mallocsStable(func() { _ = e.GetFrom(mc) })
 			return []int{b2i(n > 0), b2i(n > 0)}, []int{c0} // Reason is a view into the message
@@ -191,6 +213,9 @@ func runAllocCase(op []int, prior, cur []string, priorData, curData, key []byte)
 			var u stun.UnknownAttributes
 			if len(priorData) > 0 {
 				_ = u.GetFrom(mp)
+			}
+			if hasMid {
+				_ = u.GetFrom(mm)
 			}
 			c0 := cap(u)
 			n := mallocs(func() { _ = u.GetFrom(mc) })
@@ -235,6 +260,9 @@ func runAllocCase(op []int, prior, cur []string, priorData, curData, key []byte)
 			sp := settersOf(prior)
 			_ = bm.Build(sp...)
 			_ = bm.Build(sp...)
+		}
+		if len(midFields) > 0 {
+			_ = bm.Build(settersOf(midFields)...)
 		}
 		sc := settersOf(cur)
 		cr, ca := cap(bm.Raw), cap(bm.Attributes)
@@ -400,6 +428,13 @@ func runC20(o *out, thorough bool, r *rng, _ []string) map[string]interface{} {
 			prior = allocShape{}
 		}
 		curData := buildBytes(cur.fields)
+		midData, midFields = nil, nil
+		if i%2 == 1 {
+			mid := genShape(r, 10, false)
+			if md := buildBytes(mid.fields); md != nil {
+				midData, midFields = md, mid.fields
+			}
+		}
 		var priorData []byte
 		if len(prior.fields) > 0 {
 			priorData = buildBytes(prior.fields)
